@@ -23,7 +23,7 @@ def run_case(case):
     bt, nodes, _ = L.build_basis_tree(case)
     ids = L.abstract_ids(bt, nodes)
     rng = np.random.default_rng(case["seed"])
-    qntot = int(case["qntot"]) if case.get("qn") else 0
+    qntot = L.qntot_of(case)
     states = []
     try:
         for st in case["states"]:
